@@ -134,7 +134,10 @@ def translate_for_all():
     fam = find_in(tree, 'for_all_methods', U)
     undecorated(fam, 'for_all_methods')
     a = fam.args
-    if [x.arg for x in a.args] != ['decorator'] or a.vararg or a.kwarg or a.kwonlyargs or a.posonlyargs:
+    # (decorator) or, since fix 80ba436, (decorator, skip=()): names the loop leaves alone; it sits behind the guard
+    names = [x.arg for x in a.args]
+    skip_ok = names == ['decorator', 'skip'] and len(a.defaults) == 1 and isinstance(a.defaults[0], ast.Tuple) and not a.defaults[0].elts
+    if not (names == ['decorator'] and not a.defaults or skip_ok) or a.vararg or a.kwarg or a.kwonlyargs or a.posonlyargs:
         bad('for_all_methods: parameters changed')
     dec = find_in(fam, 'decorate', U)
     undecorated(dec, 'for_all_methods.decorate')
@@ -151,10 +154,27 @@ def translate_for_all():
         undecorated(f, short)
         p = single_param(f, short)
         b = strip_doc(f.body)
-        if len(b) == 1 and same_stmt(b[0], f'return for_all_methods(decorator={inner})({cls}={p})'):
+        def via(st):
+            # return for_all_methods(decorator=<inner>[, skip=(<string constants>)])(<cls>=<p>)
+            if not (isinstance(st, ast.Return) and isinstance(st.value, ast.Call)):
+                return False
+            outer = st.value
+            if outer.args or len(outer.keywords) != 1 or outer.keywords[0].arg != cls or not is_name(outer.keywords[0].value, p):
+                return False
+            mk = outer.func
+            if not (isinstance(mk, ast.Call) and is_name(mk.func, 'for_all_methods') and not mk.args):
+                return False
+            kws = {k.arg: k.value for k in mk.keywords}
+            if set(kws) - {'decorator', 'skip'} or 'decorator' not in kws or not is_name(kws['decorator'], inner):
+                return False
+            if 'skip' in kws and not (isinstance(kws['skip'], ast.Tuple) and all(isinstance(e, ast.Constant) and isinstance(e.value, str)
+                                                                                 for e in kws['skip'].elts)):
+                return False
+            return True
+        if len(b) == 1 and via(b[0]):
             routes.append((short, 'RouteVia "for_all_methods"'))
         else:
-            bad(f'{short} is not `return for_all_methods(decorator={inner})(cls=cls)`')
+            bad(f'{short} is not `return for_all_methods(decorator={inner}[, skip=(...)])(cls=cls)`')
     routes.append(('for_all_methods', 'RouteGuard SiteForAll' if guard_first else 'RouteNoGuard'))
     need_imports(tree, CLS, ['from pedantic.decorators import timer, trace',
                              'from pedantic.decorators.fn_deco_pedantic import pedantic, pedantic_require_docstring',
